@@ -9,7 +9,7 @@ RULE = ("adaptive fixed-width histograms in 1-3 dimensions, started empty (align
         "contents, span); float family: widths 0.1 0.2 0.3 0.7 1e-3 2.5 1e6/3 with decimal literals (1.7 ...), exact multiples "
         "of the width and nextafter neighbours of edges (arithmetic-independent invariants only: every value lies in the bin "
         "reported for it on the observed edges, total = weight entered, nothing missed); far-away values bounded to <= 300 new "
-        "bins; NaN rows, weights. non-trivial = >=1 growth to the left and >=1 to the right, or a value exactly on an edge")
+        "bins; NaN rows, weights; 35%: the values entered are also binned by the non-adaptive fixed_width / pretty / integer factories (every value inside the edges, nothing missed). non-trivial = >=1 growth to the left and >=1 to the right, or a value exactly on an edge")
 MODELLED = ("FixedWidthBinning._force_bin_existence(_single) in exact arithmetic, numpy_bins/first_edge/last_edge, "
             "_reshape_data/_apply_bin_map with an integer shift and the adaptive branches of fill/fill_n are modelled in "
             "coq/Model/Adaptive.v; binary64 rounding of floor/ceil/edge arithmetic is modelled separately in coq/Model/FWFloat.v")
@@ -58,7 +58,8 @@ def gen(rng, n, tier):
                 ws = "none" if rng.random() < 0.6 else [Fr(rng.randint(0, 12), 4) for _ in range(m)]
                 ops.append(["fill_n", rows, ws, "T"])
         yield [["bucket", "%dd/%s/%s" % (nd, "exact" if exact else "float", "empty" if size == 0 else "pre")],
-               ["init", init], ["ops", ops], ["exact", "T" if exact else "F"], ["peek", "T" if rng.random() < 0.3 else "F"]]
+               ["init", init], ["ops", ops], ["exact", "T" if exact else "F"], ["peek", "T" if rng.random() < 0.3 else "F"],
+               ["derived", "T" if rng.random() < 0.35 else "F"]]
 
 def _mk(init):
     import numpy as np
@@ -123,7 +124,24 @@ def impl(case):
         same = (np.asarray(g.frequencies).tolist() == np.asarray(h.frequencies).tolist() and
                 np.asarray(g.errors2).tolist() == np.asarray(h.errors2).tolist())
         batch = "T" if same else "F"
-    return [steps, batch, init_edges]
+    # the same coverage for NON-adaptive binnings derived from the data entered (fixed_width / pretty / integer)
+    derived = "skip"
+    if d.get("derived", "F") == "T" and len(allv) >= 2 and not anyrefused:
+        arr = np.array(allv, dtype=float).reshape(-1, nd)
+        # (a column spanning only a few representable numbers cannot carry a float grid at all: left out)
+        if all(arr[:, k].max() - arr[:, k].min() > 1e-6 * max(1.0, abs(arr[:, k]).max()) for k in range(nd)):
+            derived = []
+            w0 = float(sx.rec(d["init"])["axes"][0][0])
+            for meth, kw in (("fixed_width", dict(bin_width=w0)), ("pretty", {}), ("integer", {})):
+                if meth == "integer" and (arr.max() - arr.min() > 500): continue
+                with warnings.catch_warnings():
+                    warnings.simplefilter("ignore")
+                    g = physt.h1(arr[:, 0], meth, **kw) if nd == 1 else physt.h(arr, meth, **kw)
+                edges = [[float(x) for x in b.numpy_bins] for b in g._binnings]
+                incl = ["T"] if nd == 1 else [("T" if b.includes_right_edge else "F") for b in g._binnings]
+                mis = float(g.underflow + g.overflow) if nd == 1 else float(g.missed)
+                derived.append([edges, incl, float(g.total), mis])
+    return [steps, batch, init_edges, derived]
 
 def corr_view(case, obs): return obs[0]
 def corr_equal(case, a, b):
